@@ -30,7 +30,7 @@ def check(ctx):
     wf = os.path.join(ctx.work, "walks.json")
     json.dump(ops, open(wf, "w"))
     tr = os.path.join(ctx.work, "walk.ndjson")
-    vlib.vdrive(ctx, ["page", "walk", wf, tr])
+    vlib.vdrive(ctx, ["page", "walk", wf, tr], ok_codes=(0, 3))
     res = vlib.validate(ctx, FAM, "SlottedPageTrace", "Trace.cfg", tr, name="val-walk")
     judge(ctx, res, tr, "graph walk (3 slots, sizes {1,16,1000,2028,4064})")
     if covered < total:
@@ -40,7 +40,7 @@ def check(ctx):
     # random sequences, arbitrary sizes
     nseq = 2000 if thorough else 150
     tr2 = os.path.join(ctx.work, "random.ndjson")
-    vlib.vdrive(ctx, ["page", "random", tr2, nseq, 300])
+    vlib.vdrive(ctx, ["page", "random", tr2, nseq, 300], ok_codes=(0, 3))
     res = vlib.validate(ctx, FAM, "SlottedPageTrace", "Trace.cfg", tr2, name="val-random", timeout=3000)
     judge(ctx, res, tr2, "random sequences (sizes 1..4064)")
     c2 = count_events(tr2)
